@@ -189,72 +189,7 @@ func runC11(c *Ctx) {
 
 	// ---------------------------------------------------------------- R4
 	c.rule("R4", "Get returns a value only if it has not expired; the sweep deletes only expired entries", 2)
-	if get := c.fn(relCachePkg, "Cache", "Get"); get != nil {
-		for _, r := range returnsOf(get) {
-			vals := returnedValues(r)
-			if len(vals) != 3 {
-				continue
-			}
-			if b, ok := constBool(vals[2]); ok && !b {
-				continue
-			}
-			// need a guard: (expirationTime).Before(now) == false   or   now.After(exp)==false / !now.Before..
-			okGuard := false
-			for _, g := range guardsOfInstr(r) {
-				v, truth := g.asBool()
-				if cl, ok := v.(*ssa.Call); ok {
-					n := callName(cl)
-					if (n == "(time.Time).Before" || n == "(time.Time).After") && !truth {
-						// Before(exp, now) false => exp >= now ; After(now, exp) false => now <= exp
-						a0, a1 := cl.Call.Args[0], cl.Call.Args[1]
-						isExp := func(x ssa.Value) bool {
-							k, ok := loadedField(x)
-							return ok && strings.HasSuffix(k, ".elem.expirationTime")
-						}
-						isNow := func(x ssa.Value) bool {
-							cl2, ok := x.(*ssa.Call)
-							return ok && callName(cl2) == "time.Now"
-						}
-						if n == "(time.Time).Before" && isExp(a0) && isNow(a1) {
-							okGuard = true
-						}
-						if n == "(time.Time).After" && isNow(a0) && isExp(a1) {
-							okGuard = true
-						}
-					}
-				}
-			}
-			c.check(okGuard, "hit-return@"+funcName(get), instrPos(r), "hit is returned only under 'not expired'",
-				"Get can return a value without checking that it has not expired")
-		}
-	}
-	if gc := c.fn(relCachePkg, "Cache", "gc"); gc != nil {
-		for _, an := range gc.AnonFuncs {
-			for _, r := range returnsOf(an) {
-				vals := returnedValues(r)
-				if len(vals) != 4 {
-					continue
-				}
-				del := vals[2]
-				okDel := false
-				if b, ok := constBool(del); ok && !b {
-					okDel = true
-				}
-				if cl, ok := del.(*ssa.Call); ok && callName(cl) == "(time.Time).After" {
-					if k, ok := loadedField(cl.Call.Args[1]); ok && strings.HasSuffix(k, ".elem.expirationTime") {
-						okDel = true
-					}
-				}
-				if cl, ok := del.(*ssa.Call); ok && callName(cl) == "(time.Time).Before" {
-					if k, ok := loadedField(cl.Call.Args[0]); ok && strings.HasSuffix(k, ".elem.expirationTime") {
-						okDel = true
-					}
-				}
-				c.check(okDel, "sweep-verdict@"+funcName(an), instrPos(r), "sweep deletes exactly when now is after the entry's expiry",
-					"the sweep's delete verdict is not 'now.After(expirationTime)': live entries can be removed or dead ones kept")
-			}
-		}
-	}
+	checkExpiryGuards(c)
 
 	// ---------------------------------------------------------------- R5
 	c.rule("R5", "pkg/cache touches the map only through its locked API", 5)
@@ -413,4 +348,75 @@ func formatInt(n int64) string {
 		b = append([]byte{'-'}, b...)
 	}
 	return string(b)
+}
+
+// checkExpiryGuards (C11-R4, C05-R6): Get returns a hit only when not expired; gc deletes only expired entries.
+func checkExpiryGuards(c *Ctx) {
+	if get := c.fn(relCachePkg, "Cache", "Get"); get != nil {
+		for _, r := range returnsOf(get) {
+			vals := returnedValues(r)
+			if len(vals) != 3 {
+				continue
+			}
+			if b, ok := constBool(vals[2]); ok && !b {
+				continue
+			}
+			// need a guard: (expirationTime).Before(now) == false   or   now.After(exp)==false / !now.Before..
+			okGuard := false
+			for _, g := range guardsOfInstr(r) {
+				v, truth := g.asBool()
+				if cl, ok := v.(*ssa.Call); ok {
+					n := callName(cl)
+					if (n == "(time.Time).Before" || n == "(time.Time).After") && !truth {
+						// Before(exp, now) false => exp >= now ; After(now, exp) false => now <= exp
+						a0, a1 := cl.Call.Args[0], cl.Call.Args[1]
+						isExp := func(x ssa.Value) bool {
+							k, ok := loadedField(x)
+							return ok && strings.HasSuffix(k, ".elem.expirationTime")
+						}
+						isNow := func(x ssa.Value) bool {
+							cl2, ok := x.(*ssa.Call)
+							return ok && callName(cl2) == "time.Now"
+						}
+						if n == "(time.Time).Before" && isExp(a0) && isNow(a1) {
+							okGuard = true
+						}
+						if n == "(time.Time).After" && isNow(a0) && isExp(a1) {
+							okGuard = true
+						}
+					}
+				}
+			}
+			c.check(okGuard, "hit-return@"+funcName(get), instrPos(r), "hit is returned only under 'not expired'",
+				"Get can return a value without checking that it has not expired")
+		}
+	}
+	if gc := c.fn(relCachePkg, "Cache", "gc"); gc != nil {
+		for _, an := range gc.AnonFuncs {
+			for _, r := range returnsOf(an) {
+				vals := returnedValues(r)
+				if len(vals) != 4 {
+					continue
+				}
+				del := vals[2]
+				okDel := false
+				if b, ok := constBool(del); ok && !b {
+					okDel = true
+				}
+				if cl, ok := del.(*ssa.Call); ok && callName(cl) == "(time.Time).After" {
+					if k, ok := loadedField(cl.Call.Args[1]); ok && strings.HasSuffix(k, ".elem.expirationTime") {
+						okDel = true
+					}
+				}
+				if cl, ok := del.(*ssa.Call); ok && callName(cl) == "(time.Time).Before" {
+					if k, ok := loadedField(cl.Call.Args[0]); ok && strings.HasSuffix(k, ".elem.expirationTime") {
+						okDel = true
+					}
+				}
+				c.check(okDel, "sweep-verdict@"+funcName(an), instrPos(r), "sweep deletes exactly when now is after the entry's expiry",
+					"the sweep's delete verdict is not 'now.After(expirationTime)': live entries can be removed or dead ones kept")
+			}
+		}
+	}
+
 }
